@@ -6,10 +6,13 @@ import (
 	"go/constant"
 	"go/token"
 	"go/types"
+	"os"
 	"strings"
 
 	"octoverif/core"
 )
+
+var debugForks = os.Getenv("OCTOVERIF_TRACE") != ""
 
 type panicVal struct{ v Val }
 
@@ -556,6 +559,9 @@ func (in *Interp) decide(st *State, atom string) []condRes {
 		}
 	}
 	in.fork()
+	if debugForks {
+		fmt.Fprintln(os.Stderr, "FORK", atom)
+	}
 	t := st.clone()
 	f := st
 	t.Assumed[atom] = true
@@ -809,11 +815,15 @@ func (in *Interp) apply(x *ast.CallExpr, callee string, obj types.Object, recv V
 				return one(st, List{append([]Val(nil), args[1:]...)})
 			}
 			st.Emit("append "+args[0].Canon(), x.Pos(), args[1:]...)
+			// appending to an already-appended opaque slice keeps its name, so that loop states repeat
+			if strings.HasPrefix(args[0].Canon(), "append(") {
+				return one(st, args[0])
+			}
 			return one(st, Sym{Name: "append(" + args[0].Canon() + ",…)"})
 		case "make":
-			return one(st, Sym{Name: fmt.Sprintf("make@%d", x.Pos())})
+			return one(st, Sym{Name: fmt.Sprintf("make@%d", x.Pos()), NotNil: true})
 		case "new":
-			return one(st, Sym{Name: fmt.Sprintf("new@%d", x.Pos())})
+			return one(st, Sym{Name: fmt.Sprintf("new@%d", x.Pos()), NotNil: true})
 		case "copy", "delete", "close", "print", "println":
 			st.Emit(b.Name(), x.Pos(), args...)
 			return one(st, Sym{Name: b.Name()})
